@@ -19,8 +19,12 @@ TRecv == Ev("recv") /\ Recv(e.off, e.len) /\ res'.ret = e.ret /\ StateMatches
 TRead == Ev("read") /\ Read(e.k) /\ res'.n = e.n /\ e.data_ok = TRUE /\ StateMatches
 TNext == Ev("next") /\ Next(e.n) /\ res'.some = e.some /\ e.data_ok = TRUE /\ StateMatches
 
+\* the same buffer behind the crypto stream's API (CryptoStreamIncoming::recv_frame, CryptoStreamReader): only bytes read are visible
+TCRecv == Ev("crecv") /\ e.ok = TRUE /\ Recv(e.off, e.len)
+TCRead == Ev("cread") /\ Read(e.k) /\ res'.n = e.n /\ e.data_ok = TRUE
+
 TraceInit == l = 1 /\ Init
-TraceNext == TReset \/ TRecv \/ TRead \/ TNext
+TraceNext == TReset \/ TRecv \/ TRead \/ TNext \/ TCRecv \/ TCRead
 TraceAccepted ==
     LET d == TLCGet("stats").diameter IN
     IF d - 1 = NE THEN TRUE
